@@ -191,19 +191,50 @@ func ruleSweepStop(c *Ctx) {
 		return true
 	})
 	c.check(asc, "ScanExpires-ascending", se.Decl.Pos(), "ScanExpires iterates the expiry index in ascending order", "ScanExpires does not iterate the expiry index in ascending order")
-	// (d) sweepers
-	for _, name := range []string{"backgroundExpireObjects", "backgroundExpireHooks"} {
-		fn := c.Func("internal/server", "Server", name)
-		if fn == nil {
-			c.und(name, 0, "not found")
+	// (d) sweepers: whichever functions iterate the expiry indexes (found by the call, not by name)
+	hookExpires := c.Field("internal/server", "Server", "hookExpires")
+	found := map[string]bool{}
+	for _, fn := range c.AllFuncs("internal/server") {
+		finfo := fn.Info()
+		kind := ""
+		ast.Inspect(fn.Decl.Body, func(x ast.Node) bool {
+			call, ok := x.(*ast.CallExpr)
+			if !ok {
+				return true
+			}
+			if f := callee(finfo, call); f != nil && isMethod(f, colPath, "Collection", "ScanExpires") {
+				kind = "objects"
+			}
+			if se, ok := ast.Unparen(call.Fun).(*ast.SelectorExpr); ok && selField(finfo, se.X) == hookExpires && (se.Sel.Name == "Ascend" || se.Sel.Name == "Scan") {
+				kind = "hooks"
+			}
+			return true
+		})
+		if kind == "" {
 			continue
 		}
-		finfo := fn.Info()
+		found[kind] = true
+		name := "sweep-" + kind
 		var nowObj types.Object
 		for _, p := range fn.Decl.Type.Params.List {
 			for _, n := range p.Names {
-				nowObj = finfo.ObjectOf(n)
+				if isNamedType(finfo.ObjectOf(n).Type(), "time", "Time") {
+					nowObj = finfo.ObjectOf(n)
+				}
 			}
+		}
+		if nowObj == nil {
+			// a local `now := time.Now()`
+			ast.Inspect(fn.Decl.Body, func(x ast.Node) bool {
+				if as, ok := x.(*ast.AssignStmt); ok && len(as.Lhs) == 1 && len(as.Rhs) == 1 {
+					if call, ok := ast.Unparen(as.Rhs[0]).(*ast.CallExpr); ok && isFunc(callee(finfo, call), "time", "Now") {
+						if id, ok := as.Lhs[0].(*ast.Ident); ok {
+							nowObj = finfo.ObjectOf(id)
+						}
+					}
+				}
+				return true
+			})
 		}
 		done := false
 		ast.Inspect(fn.Decl.Body, func(x ast.Node) bool {
@@ -289,7 +320,12 @@ func ruleSweepStop(c *Ctx) {
 			return true
 		})
 		if !done {
-			c.bad(name+"/callback", fn.Decl.Pos(), "sweeper callback not found")
+			c.bad(name+"/callback", fn.Decl.Pos(), "the function that iterates the expiry index has no collecting callback")
+		}
+	}
+	for _, k := range []string{"objects", "hooks"} {
+		if !found[k] {
+			c.bad("sweep-"+k+"/present", 0, "no function iterates the expiry index of %s: nothing expires", k)
 		}
 	}
 }
